@@ -388,6 +388,7 @@ META = (META[0] + " " + META_EXTRA, META[1])
 META = (META[0] + ' SHIFT (shift counts below the promoted operand width, symbolic type width).', META[1])
 META = (META[0] + ' IT1 (no dereference of a scan cursor without a dominating end test) and PTRCOUNT (pointer parameters indexed strictly below the count) over algorithms, char_traits and C-string helpers.', META[1])
 META = (META[0] + " SUB (sub-span pairs stay inside the span); IT1n (counted ranges are touched only where count > 0); RAWDIFF (integer midpoint); BOUND follows local pointers and covers the string's const members.", META[1])
+META = (META[0] + ' PRECALL (valid calls never violate the precondition of a member they call internally); IDXLOOP.', META[1])
 
 
 def run(chk, tier):
